@@ -4,7 +4,8 @@
                          postfix forms `?`, `f<n>` = `.name`, `c<n>` = an argument list)
    c09 ref <tok>*        reference grammar on the same (well-formed) token list
    c09 rel <A> <B>       generated relative_associativity
-   c09 num|hex|asn|ipv4|str|chr|fstr|fpart|kw <hex of UTF-8 source>
+   c09 num|hex|asn|ipv4|str|chr|fstr|fstrgen|fpart|kw <hex of UTF-8 source>
+                         (fstrgen: f-string parts with the brace pass run on the GENERATED backslash arm)
    c09 prefix4 a b c d len
    c09 la <gen|old> <sym>*   look-ahead / lexer-mode model of atom, block, record, separated,
                          f_string on a symbol list: `{ } ( ) [ ] , : ; = . let id lit f" op`,
@@ -18,6 +19,7 @@ import RotoV.Model.FString
 import RotoV.Generated.Precedence
 import RotoV.Model.LookAhead
 import RotoV.Generated.LookAhead
+import RotoV.Generated.C09FStrText
 
 namespace Driver.C09
 open RotoV RotoV.Pratt RotoV.Literal RotoV.FString
@@ -181,6 +183,12 @@ def handle (args : List String) : String :=
       | "str" => (match unescape cs with | some s => s!"ok {hexStr s}" | none => "err")
       | "chr" => (match unescapeChar cs with | some c => s!"ok {hexStr [c]}" | none => "err")
       | "fstr" => (match fString (cs.length + 2) cs with | some ps => s!"ok {showParts ps}" | none => "err")
+      | "fstrgen" =>
+        -- the same with the brace pass run on the GENERATED backslash arm / brace characters
+        let pt := fun raw => partTextWith
+          (armConsumed RotoV.Gen.C09FStrText.backslashConds RotoV.Gen.C09FStrText.backslashSkipStop)
+          RotoV.Gen.C09FStrText.braceChars raw []
+        (match fStringP pt (cs.length + 2) cs with | some ps => s!"ok {showParts ps}" | none => "err")
       | "fpart" =>
         (match fStringPart cs with
          | .part .intermediate t r => s!"I {hexStr t} {utf8Len r}"
